@@ -150,7 +150,7 @@ def while_(
             raise JMCSyntaxException(
                 "Expected {", command[1], tokenizer, col_length=True
             )
-        if command[1].token_type != TokenType.PAREN_ROUND:
+        if command[2].token_type != TokenType.PAREN_CURLY:
             raise JMCSyntaxException(
                 "Expected {", command[2], tokenizer, display_col_length=False
             )
